@@ -6,7 +6,7 @@ ID = "C18"
 THEOREMS = "Properties/C18.v"
 HARNESS = ["c18"]
 LEVEL = "proof"
-READY = False
+READY = True
 KNOWN_MAILBOX = "mailbox-clock-at-write-time"
 TRUSTED_BASE = [
     "Coq 8.16.1 kernel (coqc, full .vo build); vm_compute in the refutation witness, the non-vacuity examples and the correspondence evaluation",
